@@ -650,3 +650,42 @@ func HasBool(facts []Fact, truth bool, match func(v ssa.Value) bool) bool {
 	}
 	return false
 }
+
+// Root chases a value through store->load forwarding, closure free-variable
+// bindings and single-store locals to a canonical defining value, so that the
+// same variable seen from a function and from its closures compares equal.
+func Root(v ssa.Value) ssa.Value {
+	for i := 0; i < 16; i++ {
+		v = Resolve(v)
+		switch x := v.(type) {
+		case *ssa.FreeVar:
+			if b := FreeVarBinding(x); b != nil {
+				v = b
+				continue
+			}
+			return v
+		case *ssa.UnOp:
+			if x.Op != token.MUL {
+				return v
+			}
+			addr := x.X
+			if fv, ok := addr.(*ssa.FreeVar); ok {
+				if b := FreeVarBinding(fv); b != nil {
+					addr = b
+				}
+			}
+			if al, ok := addr.(*ssa.Alloc); ok {
+				st := StoresTo(al)
+				if len(st) == 1 {
+					v = st[0].Val
+					continue
+				}
+				return al
+			}
+			return v
+		default:
+			return v
+		}
+	}
+	return v
+}
